@@ -29,15 +29,15 @@ type waFrame struct {
 }
 
 type waBuilder struct {
-	P        *Program
-	n        *NFA
-	mode     string // Read | Skip | Write
+	P    *Program
+	n    *NFA
+	mode string // Read | Skip | Write
 	// assume: 0 nothing; 1 every block count is non-negative; 2 every
 	// non-zero block count is negative. Tests of a block count's sign (in
 	// any inlined frame) have the contradicting edge cut.
 	assume       int
 	countOrigins map[*ssa.Call]bool // the Varint reads that yield block counts
-	problems []string
+	problems     []string
 	// NegEdges seen (for WA-NEG) in the top frame
 	negIfs []*ssa.If
 	small  map[string]bool // cache: "Type.field" is only ever stored 0/1
